@@ -21,6 +21,7 @@ RULE = ('random core files (variables with differing dimension subsets, masks,'
         'one variable has a selected dimension and the selection is not the '
         'identity; distinct = distinct (file spec, selectors) digests.')
 RULE += (" Every tenth receiver is the object one of the library's READERS returns for a valid image written by the independent codecs (CAMx memory-mapped and record readers, bpch1, bpch2, arlpackedbit, ffi1001); the call is drawn from the dimensions of the open file and judged by the same oracle on a snapshot of that file.")
+RULE += (' One receiver from disk in three (plain files) is written with netCDF4 directly, as other tools write archive files: float data variables packed (int16 with scale_factor/add_offset), masks as _FillValue; the oracle snapshots what the opened file delivers.')
 ASSUMPTIONS = [
     'oracle = numpy take/basic slicing applied axis by axis to plain copies',
     'index values are drawn inside [-n, n-1] (in-domain); out-of-range '
@@ -211,7 +212,7 @@ def run_file(spec, res, d, h, f, ioapi):
         f.variables[k0].var_desc = 'free text about the variable'.ljust(80)
         res.facet('ioapi:custom-long_name')
     if spec.get('disk'):
-        g = harness.to_disk(f, d, h, fmt='ioapi' if ioapi else 'netcdf')
+        g = harness.to_disk(f, d, h, res=res, foreign=True, fmt='ioapi' if ioapi else 'netcdf')
         if g is not None:
             f = g
             res.facet('source:disk')
